@@ -313,6 +313,9 @@ func (m *Machine) chanSend(c *chanVal, v value) {
 		m.curVC().set(g, m.curVC().get(g)+1)
 	}
 	c.sendq = append(c.sendq, req)
+	// a blocking send is recorded when the sender commits to it: the native replay must let
+	// the sender enter the channel operation before the receiver that completes it
+	m.event("send")
 	m.block(func() bool { return req.done || c.closed })
 	if !req.done {
 		panic(goPanic{"send on closed channel"})
@@ -320,7 +323,6 @@ func (m *Machine) chanSend(c *chanVal, v value) {
 	if m.DetectRaces && req.recvVC != nil {
 		m.curVC().join(req.recvVC)
 	}
-	m.event("send")
 }
 
 func (m *Machine) chanRecv(c *chanVal) (value, bool) {
